@@ -23,7 +23,8 @@ RULE = ("one case = (file with one violation of a class at a record position, ch
         "configuration of MC_C15 replayed; B: recorded executions validated by TLC against L0; non-trivial = the offending record is "
         "not the first one or the chunk size is smaller than the file; distinct by full configuration")
 
-CLASSES = {"delim": ["non-numeric", "column-count"], "twoline": ["no-marker"], "fastq": ["no-marker", "no-plus"]}
+CLASSES = {"delim": ["non-numeric", "non-numeric-capital", "non-numeric-space", "non-numeric-dollar", "column-count"], "twoline": ["no-marker"], "fastq": ["no-marker", "no-plus"]}
+BADCHAR = {"non-numeric": "x", "non-numeric-after-signed": "x", "non-numeric-capital": "X", "non-numeric-space": " ", "non-numeric-dollar": "$"}
 
 
 def inject(fmt, lines, cls, i=0):
@@ -40,10 +41,12 @@ def inject(fmt, lines, cls, i=0):
         lines[0] = "\t".join(cols)
     elif cls == "no-plus":
         lines[2] = "x" + lines[2][1:]
-    elif cls in ("non-numeric", "non-numeric-after-signed"):
+    elif cls in BADCHAR:
+        # the first character of an integer column replaced: by a letter, by a capital that is a digit plus 32 ('X' = '8' + 32), by a
+        # character that sorts before '0' like the signs do (a space, '$')
         cols = lines[0].split("\t")
         j = {"vcf": 1, "sam": 3, "gtf": 3, "gffc": 3}.get(fmt, 1)
-        cols[j] = "x" + cols[j][1:] if len(cols[j]) > 1 or True else cols[j]
+        cols[j] = BADCHAR[cls] + cols[j][1:]
         lines[0] = "\t".join(cols)
     elif cls == "column-count":
         k = lines[0].rfind("\t")
@@ -215,7 +218,7 @@ def check_vector(v):
 
 
 # ------------------------------------------------------------------------------------------------ binding B
-BSETS = [("bed6", ["bad-symbol", "non-numeric", "non-numeric-after-signed", "non-numeric-score", "column-count", "extra-column", "double-columns"]),
+BSETS = [("bed6", ["bad-symbol", "non-numeric", "non-numeric-capital", "non-numeric-space", "non-numeric-dollar", "non-numeric-after-signed", "non-numeric-score", "column-count", "extra-column", "double-columns"]),
          ("narrowpeak", ["non-numeric-float", "bad-symbol", "float-interior-minus"]),
          ("vcf", ["non-numeric"]), ("gffc", ["non-numeric"]), ("bedgraph", ["non-numeric", "non-numeric-after-signed", "float-interior-minus", "float-two-dots", "float-trailing-minus"]), ("bed3", ["non-numeric", "column-count", "extra-column", "double-columns"]),
          ("fastq", ["no-marker", "no-plus", "blank-header"]), ("fasta2", ["no-marker", "blank-header"])]
